@@ -178,7 +178,16 @@ def run_tlc(module, cfg, workdir, workers=1, env=None, timeout=600, extra=None, 
     return res
 
 
+def _workers(n):
+    """VERIF_WORKERS caps the TLC worker threads of design checks / generators (shared machines)"""
+    try:
+        return max(1, min(n, int(os.environ.get("VERIF_WORKERS", n))))
+    except ValueError:
+        return n
+
+
 def design_check(module, cfg, workdir, workers=10, timeout=1500, heap="5g"):
+    workers = _workers(workers)
     """Exhaustive design check. A violated invariant here is a defect of the *specification's* algorithm
     (tool error for the purposes of a check), never a verdict about the code."""
     r = run_tlc(module, cfg, workdir, workers=workers, timeout=timeout, heap=heap, extra=["-coverage", "1"])
@@ -188,6 +197,7 @@ def design_check(module, cfg, workdir, workers=10, timeout=1500, heap="5g"):
 
 
 def generate(module, cfg, workdir, workers=10, timeout=1500, heap="5g", simulate=None):
+    workers = _workers(workers)
     r = run_tlc(module, cfg, workdir, workers=workers, timeout=timeout, heap=heap, simulate=simulate)
     if r["error"] and not (simulate and r["rc"] in (0,)):
         raise ToolError("G %s/%s failed: %s\n%s" % (module, cfg, r["error"], r.get("tail", "")))
